@@ -331,6 +331,42 @@ pub open spec fn unsubscribe_static_ok(p: UnsubscribePacket) -> bool {
 //@end
 
 // =====================================================================================================
+// MQTT 3.1.1 remaining lengths of PUBLISH / SUBSCRIBE / UNSUBSCRIBE (no properties): C02
+// =====================================================================================================
+pub open spec fn publish_remaining_len311(p: PublishPacket) -> nat {
+    2 + blen(p.topic@) + (if p.qos != QualityOfService::AtMostOnce { 2nat } else { 0 }) + (match p.payload { Some(b) => b@.len(), None => 0 })
+}
+//@fn gneiss-mqtt/src/mqtt/publish.rs compute_publish_packet_length_properties311 props=C02
+    // the function itself has no range check: that the length fits was established by send-time validation, which bounds the (larger)
+    // MQTT 5 length of the same packet by the maximum packet size (proved for validate_publish_packet_outbound_internal above)
+    requires publish_remaining_len311(*packet) <= 268435455,
+    ensures r matches Ok(rem) && rem == publish_remaining_len311(*packet),
+//@end
+
+//@fn gneiss-mqtt/src/mqtt/subscribe.rs compute_subscribe_packet_length_properties311 props=C02
+    // (no range check in the function: the bound comes from send-time validation of the larger MQTT 5 length, as for PUBLISH)
+    requires subs_ok(packet.subscriptions@), count_ok(packet.subscriptions@.len()), 2 + subs_len(packet.subscriptions@, packet.subscriptions@.len()) <= 268435455,
+    ensures r matches Ok(rem) && rem == 2 + subs_len(packet.subscriptions@, packet.subscriptions@.len()),
+//@@loop 0 iter=it
+        invariant subs_ok(packet.subscriptions@), count_ok(packet.subscriptions@.len()),
+            total_remaining_length == 2 + packet.subscriptions@.len() * 3 + subs_len(packet.subscriptions@, it.index@ as nat) - it.index@ * 3,
+            total_remaining_length <= 2 + 16777216 * 3 + it.index@ * 65535,
+//@@at before "total_remaining_length += subscription.topic_filter.len();"
+            proof { assert(0 <= it.index@ < packet.subscriptions@.len()); assert(*subscription == packet.subscriptions@[it.index@ as int]); }
+//@end
+
+//@fn gneiss-mqtt/src/mqtt/unsubscribe.rs compute_unsubscribe_packet_length_properties311 props=C02
+    requires filters_ok(packet.topic_filters@), count_ok(packet.topic_filters@.len()), 2 + filters_len(packet.topic_filters@, packet.topic_filters@.len()) <= 268435455,
+    ensures r matches Ok(rem) && rem == 2 + filters_len(packet.topic_filters@, packet.topic_filters@.len()),
+//@@loop 0 iter=it
+        invariant filters_ok(packet.topic_filters@), count_ok(packet.topic_filters@.len()),
+            total_remaining_length == 2 + packet.topic_filters@.len() * 2 + filters_len(packet.topic_filters@, it.index@ as nat) - it.index@ * 2,
+            total_remaining_length <= 2 + 16777216 * 2 + it.index@ * 65535,
+//@@at before "total_remaining_length += filter.len();"
+            proof { assert(0 <= it.index@ < packet.topic_filters@.len()); assert(*filter == packet.topic_filters@[it.index@ as int]); }
+//@end
+
+// =====================================================================================================
 // CONNECT (MQTT5 3.1 / MQTT 3.1.1 3.1): remaining length and property lengths = the wire layout, no overflow, no truncation (C02)
 // =====================================================================================================
 pub open spec fn opt_str_len(o: Option<String>) -> nat { match o { Some(s) => blen(s@), None => 0 } }
